@@ -203,6 +203,45 @@ def gen_cases(rs, tier):
                       'y': [[[int(v) for v in r] for r in pl] for pl in y.tolist()], 'thr': thr, 'tail': TAILS[int(rs.randint(3))],
                       'paired': paired, 'k': int(rs.randint(10, 21)), 'seed': int(rs.randint(2 ** 31 - 1)), 'flavour': kind, 'exp': 0,
                       'cexp': ce.tolist() if ce.any() else None, 'scale': 'unit', 'dtype': 'float64', 'order': 'C', 'exact': True})
+    # ---- thr := a statistic attained EXACTLY by some connection (dyadic t): the exact answer is "not suprathreshold"
+    import math
+
+    def dyadic_t(xs, ys, paired_):
+        """the exact t statistic of the samples if it is a non-zero dyadic rational, else None"""
+        xs = [Fraction(int(v)) for v in xs]; ys = [Fraction(int(v)) for v in ys]
+        if paired_:
+            d = [a - b for a, b in zip(xs, ys)]; nn = len(d)
+            ss = sum((a * a for a in d), Fraction(0)) - sum(d, Fraction(0)) ** 2 / nn
+            num = sum(d, Fraction(0)) / nn; V = ss / (nn * (nn - 1)) if ss else Fraction(0)
+        else:
+            n1, n2 = len(xs), len(ys); mx = sum(xs, Fraction(0)) / n1; my = sum(ys, Fraction(0)) / n2
+            V = (sum(((a - mx) ** 2 for a in xs), Fraction(0)) + sum(((b - my) ** 2 for b in ys), Fraction(0))) / (n1 + n2 - 2) * (Fraction(1, n1) + Fraction(1, n2))
+            num = mx - my
+        if V == 0 or num == 0:
+            return None
+        q = num * num / V
+        a, b = math.isqrt(q.numerator), math.isqrt(q.denominator)
+        if a * a != q.numerator or b * b != q.denominator or b & (b - 1):
+            return None
+        return Fraction(a, b) * (1 if num > 0 else -1)
+    for t in range(24 if quick else 240):
+        paired = t % 3 == 2
+        n = int(rs.randint(4, 6)); nx = int(rs.randint(2 if paired else 3, 6)); ny = nx if paired else int(rs.randint(3, 6))
+        x, y, eff = gen_data(rs, n, nx, ny, paired, 'plain')
+        tv = None
+        for _ in range(4000):
+            xs = rs.randint(0, 8, size=nx); ys = rs.randint(0, 8, size=ny)
+            tv = dyadic_t(xs, ys, paired)
+            if tv is not None and abs(tv) <= 6:
+                break
+        if tv is None:
+            continue
+        (i, j) = [(a, b) for a in range(n) for b in range(a + 1, n)][int(rs.randint(n * (n - 1) // 2))]
+        x[i, j, :] = x[j, i, :] = xs; y[i, j, :] = y[j, i, :] = ys
+        tail = 'both' if t % 2 == 0 else ('right' if tv > 0 else 'left')
+        cases.append({'n': n, 'nx': nx, 'ny': ny, 'x': x.astype(int).tolist(), 'y': y.astype(int).tolist(), 'thr': float(abs(tv)), 'tail': tail,
+                      'paired': paired, 'k': int(rs.randint(8, 16)), 'seed': int(rs.randint(2 ** 31 - 1)), 'flavour': 'tie-thr', 'exp': 0, 'cexp': None,
+                      'scale': 'unit', 'dtype': 'float64', 'order': 'C', 'exact': True})
     # ---- the same kind of data in exact dyadic units: t is scale invariant, every predicate must be unchanged
     M = 90 if quick else 1500
     for t in range(M):
@@ -320,7 +359,7 @@ def _fr_mean(v):
 
 
 def exact_edge(xs, ys, thr, tail, paired):
-    """xs, ys: lists of Fraction. Returns (exceeds, exceeds_conv, undefined, infinite):
+    """xs, ys: lists of Fraction. Returns (exceeds, exceeds_conv, undefined, infinite, tie):
     exceeds      – the t statistic of the property (zero variance: +-inf for a non-zero mean difference, undefined for 0/0) > thr
     exceeds_conv – the same with bct's coded two-sample convention `denom == 0 -> t = 0`"""
     def tn(d):
@@ -330,21 +369,24 @@ def exact_edge(xs, ys, thr, tail, paired):
         if thr >= 0:
             return num > 0 and num * num > thr * thr * V
         return num >= 0 or num * num < thr * thr * V
+
+    def eq_sqrt(num, V):        # num / sqrt(V) == thr, V > 0 (an exact tie: not suprathreshold, but one float rounding away from it)
+        return num * num == thr * thr * V and ((num > 0) == (thr > 0)) and ((num == 0) == (thr == 0))
     if paired:
         d = [a - b for a, b in zip(xs, ys)]
         nn = len(d); md = _fr_mean(d)
         ss = sum((a * a for a in d), Fraction(0)) - sum(d, Fraction(0)) ** 2 / nn
         if ss == 0:
-            return (tn(md) > 0), (tn(md) > 0), md == 0, md != 0
+            return (tn(md) > 0), (tn(md) > 0), md == 0, md != 0, False
         r = gt_sqrt(tn(md), ss / (nn * (nn - 1)))
-        return r, r, False, False
+        return r, r, False, False, eq_sqrt(tn(md), ss / (nn * (nn - 1)))
     n1, n2 = len(xs), len(ys)
     mx, my = _fr_mean(xs), _fr_mean(ys)
     V = (sum(((a - mx) ** 2 for a in xs), Fraction(0)) + sum(((b - my) ** 2 for b in ys), Fraction(0))) / (n1 + n2 - 2) * (Fraction(1, n1) + Fraction(1, n2))
     if V == 0:
-        return (tn(mx - my) > 0), (0 > thr), mx == my, mx != my
+        return (tn(mx - my) > 0), (0 > thr), mx == my, mx != my, False
     r = gt_sqrt(tn(mx - my), V)
-    return r, r, False, False
+    return r, r, False, False, eq_sqrt(tn(mx - my), V)
 
 
 _VAR_FIXED = None
@@ -395,9 +437,11 @@ def oracle_exact(c, draws_log):
     res = {'near': False, 'undefined': 0, 'exact': True}
 
     def supra(Xp, Yp):
-        E, Ec, nan, inf, can = [], [], [], [], []
+        E, Ec, nan, inf, can, tie = [], [], [], [], [], []
         for e, cell in enumerate(cells):
-            a, b, und, isinf = exact_edge(Xp[e], Yp[e], thr, tail, paired)
+            a, b, und, isinf, istie = exact_edge(Xp[e], Yp[e], thr, tail, paired)
+            if istie and thr != 0:
+                tie.append(cell)
             if a:
                 E.append(cell)
             if b:
@@ -409,10 +453,10 @@ def oracle_exact(c, draws_log):
             if float_cancel(Xp[e], Yp[e], paired, und or isinf):
                 can.append(cell)
         res['undefined'] += len(nan)
-        return E, Ec, nan, inf, can
-    E, Ec, nan, inf, can = supra(XF, YF)
-    res.update(E=E, E_conv=Ec, nan_cells=nan, inf_cells=inf if not paired else [], cancel_cells=can)
-    null, null_conv, null_inf, null_can = [], [], [], []
+        return E, Ec, nan, inf, can, tie
+    E, Ec, nan, inf, can, tie = supra(XF, YF)
+    res.update(E=E, E_conv=Ec, nan_cells=nan, inf_cells=inf if not paired else [], cancel_cells=can, tie_cells=tie)
+    null, null_conv, null_inf, null_can, null_tie = [], [], [], [], []
     for ent in draws_log:
         if paired:
             sg = [Fraction(1) if u < 4503599627370496 else (Fraction(0) if u == 4503599627370496 else Fraction(-1)) for u in ent]
@@ -422,11 +466,12 @@ def oracle_exact(c, draws_log):
             for rx, ry in zip(XF, YF):
                 d = [(rx + ry)[q] for q in ent]
                 Xp.append(d[:nx]); Yp.append(d[nx:])
-        Ep, Epc, _, infp, canp = supra(Xp, Yp)
+        Ep, Epc, _, infp, canp, tiep = supra(Xp, Yp)
+        null_tie.append(bool(tiep))
         null.append(max([len(es) for (_, es) in comps_of(n, Ep)] + [0]))
         null_conv.append(max([len(es) for (_, es) in comps_of(n, Epc)] + [0]))
         null_inf.append(bool(infp) and not paired); null_can.append(bool(canp))
-    res.update(null=null, null_conv=null_conv, null_inf=null_inf, null_cancel=null_can)
+    res.update(null=null, null_conv=null_conv, null_inf=null_inf, null_cancel=null_can, null_tie=null_tie)
     return res
 
 
@@ -449,7 +494,7 @@ def run_case(c):
         x = np.array(x.astype(dt), order=c.get('order', 'C')); y = np.array(y.astype(dt), order=c.get('order', 'C'))
         assert np.array_equal(x.astype(float), np.array(c['x'], dtype=float)) and np.array_equal(y.astype(float), np.array(c['y'], dtype=float))
     thr, tail, paired, k = c['thr'], c['tail'], c['paired'], c['k']
-    out = {'fails': [], 'status': None, 'line': None, 'expected': None, 'skipped': False, 'ncomp': 0, 'undefined': 0, 'sym': 0, 'maxnodes': 0, 'cancel_cells': 0}
+    out = {'fails': [], 'status': None, 'line': None, 'expected': None, 'skipped': False, 'ncomp': 0, 'undefined': 0, 'sym': 0, 'maxnodes': 0, 'cancel_cells': 0, 'tie_cells': 0}
     F = out['fails']
     rec = Recorder(c['seed'])
     x0, y0 = x.copy(), y.copy()
@@ -459,7 +504,7 @@ def run_case(c):
         st, v = call(bct.nbs_bct, x, y, thr, k=k, tail=tail, paired=paired, seed=rec, t=300.0)
     out['status'] = st
     if st == 'timeout':      # nbs_bct is a bounded loop: no return within 30 s, nor within 300 s on the retry, on <= 6 nodes / k <= 50 is a failure
-        F.append(('returns-within-budget', {'budget_s': 300.0}, {'degenerate_two_sample': False, 'degenerate_two_sample_null': False, 'float_cancellation': False}))
+        F.append(('returns-within-budget', {'budget_s': 300.0}, {'degenerate_two_sample': False, 'degenerate_two_sample_null': False, 'float_cancellation': False, 'exact_tie_nonzero_thr': False}))
         return out
     line = 'nbs n=%d nx=%d ny=%d x=%s y=%s thr=%s tail=%s paired=%d k=%d draws=%s' % (
         n, nx, ny, mat_str(c['x']), mat_str(c['y']), frac_str(thr), tail, int(paired), k, ','.join(str(d) for d in rec.flat()) or '-')
@@ -479,13 +524,17 @@ def run_case(c):
     # oracle predicts under exactly that convention (E_conv / null_conv) and differs from the true one only through +-inf cells.
     E_true, E_conv = orc['E'], orc['E_conv']
     obs_degenerate = (not paired) and set(E_true) != set(E_conv)
-    NO = {'degenerate_two_sample': False, 'degenerate_two_sample_null': False, 'float_cancellation': False}
+    NO = {'degenerate_two_sample': False, 'degenerate_two_sample_null': False, 'float_cancellation': False, 'exact_tie_nonzero_thr': False}
     # Second known defect: the float variance formulas lose a zero / tiny variance (non-dyadic constants, one-pass paired sum of squares).
     # `cancel` = the cells where bct's formula provably differs from the exact value (float_cancel); a failure is attributed only if it is
     # confined to those cells (or, for null values, to relabellings that contain such a cell).
     cancel = set(tuple(e) for e in orc.get('cancel_cells', []))
     out['cancel_cells'] = len(cancel)
-    if cancel or any(orc.get('null_cancel', [])):
+    # Third known defect: a statistic that EQUALS a non-zero threshold exactly is not suprathreshold, but the float statistic can land one
+    # rounding above it (x=[3,6,6], y=[4,1,3], thr 1.75: float t = 1.7500000000000002).  `ties` = cells with exact t == thr != 0.
+    ties = set(tuple(e) for e in orc.get('tie_cells', []))
+    out['tie_cells'] = len(ties)
+    if cancel or any(orc.get('null_cancel', [])) or ties or any(orc.get('null_tie', [])):
         out['line'] = None      # some float variance is an artefact (observed data or a relabelling): the exact model is not expected to agree; judged by the exact oracle only
         out['nocorr'] = True
     if thr < 0 and orc['nan_cells']:
@@ -501,12 +550,17 @@ def run_case(c):
         known = obs_degenerate and kind == 'BCTParamError' and 'Unsuitable threshold' in v and not E_conv
         known2 = (not known) and kind == 'BCTParamError' and 'Unsuitable threshold' in v and bool(cancel) and set(E_conv) <= cancel
         F.append(('raises', {'exception': v, 'oracle_edges': E_true, 'inf_cells': orc['inf_cells'], 'cancellation_cells': sorted(cancel)},
-                  dict(NO, degenerate_two_sample=bool(known), float_cancellation=bool(known2))))
+                  dict(NO, degenerate_two_sample=bool(known), float_cancellation=bool(known2))))      # (a tie can only ADD an edge, never cause this rejection)
         if known2:
             out['line'] = None          # the exact model cannot agree with a float artefact
         return out
     pvals, adj, null = v
     pvals = np.asarray(pvals, dtype=float); adj = np.asarray(adj, dtype=float); null = np.asarray(null, dtype=float)
+    if not (np.all(np.isfinite(pvals)) and np.all(np.isfinite(adj)) and np.all(np.isfinite(null)) and np.all(adj == np.round(adj)) and np.all(null == np.round(null))):
+        # never format a non-finite / fractional output (int() would raise in the worker): it is a violation in its own right
+        F.append(('finite-integer-output', {'pvals': str(pvals)[:200], 'adj': str(adj)[:300], 'null': str(null)[:200]}, dict(NO)))
+        out['line'] = None
+        return out
     out['expected'] = expected_line(st, v, k)
     # ---- support
     def smat(E):
@@ -519,9 +573,11 @@ def run_case(c):
         known = obs_degenerate and adj.shape == (n, n) and np.array_equal(adj != 0, smat(E_conv))
         marked = [(i, j) for i in range(n) for j in range(i + 1, n) if adj.shape == (n, n) and adj[i, j] != 0]
         known2 = (not known) and adj.shape == (n, n) and np.array_equal(adj, adj.T) and bool(cancel) and (set(marked) ^ set(E_conv)) <= cancel
-        F.append(('support', {'adj': adj.tolist(), 'oracle_edges': E_true, 'inf_cells': orc['inf_cells'], 'cancellation_cells': sorted(cancel)},
-                  dict(NO, degenerate_two_sample=bool(known), float_cancellation=bool(known2))))
-        if not (known or known2):
+        known3 = (not known) and (not known2) and adj.shape == (n, n) and np.array_equal(adj, adj.T) and bool(ties) \
+            and (set(marked) ^ set(E_conv)) <= ties and set(E_conv) <= set(marked)          # only tie cells, and only ADDED
+        F.append(('support', {'adj': adj.tolist(), 'oracle_edges': E_true, 'inf_cells': orc['inf_cells'], 'cancellation_cells': sorted(cancel), 'exact_tie_cells': sorted(ties)},
+                  dict(NO, degenerate_two_sample=bool(known), float_cancellation=bool(known2), exact_tie_nonzero_thr=bool(known3))))
+        if not (known or known2 or known3):
             return out
         E_use = E_conv if known else marked   # go on: labels, p-values, null and the symmetries are still judged, relative to the marked support
         if known2:
@@ -565,8 +621,11 @@ def run_case(c):
             known = (not paired) and all(orc['null_inf'][u] and null[u] == oc[u] for u in bad)
             nc = orc.get('null_cancel', [False] * k)
             known2 = (not known) and all(nc[u] or (orc['null_inf'][u] and null[u] == oc[u]) for u in bad)
+            nt = orc.get('null_tie', [False] * k)
+            known3 = (not known) and (not known2) and all(nt[u] and null[u] >= oc[u] for u in bad)     # a tie can only enlarge a component
             F.append(('null', {'null': null.tolist(), 'oracle_null': orc['null'], 'oracle_null_denom0_convention': orc['null_conv'],
-                               'deviating_permutations': [int(u) for u in bad]}, dict(NO, degenerate_two_sample_null=bool(known), float_cancellation=bool(known2))))
+                               'deviating_permutations': [int(u) for u in bad]},
+                      dict(NO, degenerate_two_sample_null=bool(known), float_cancellation=bool(known2), exact_tie_nonzero_thr=bool(known3))))
             if known2:
                 out['line'] = None
     if not (np.array_equal(x, x0) and np.array_equal(y, y0)):
@@ -584,8 +643,8 @@ def run_case(c):
     st2, v2 = call(bct.nbs_bct, y0.copy(), x0.copy(), thr, k=3, tail=SWAP[tail], paired=paired, seed=Recorder(1), t=30.0, retry=10)
     out['sym'] += 1
     def sym_cond(st_, v_):
-        # a symmetry failure is attributed to the float-cancellation defect only if the two supports differ inside cancellation cells
-        if not cancel:
+        # a symmetry failure is attributed to the float-cancellation / exact-tie defects only if the two supports differ inside those cells
+        if not cancel and not ties:
             return cond
         if st_ == 'exc' and 'Unsuitable threshold' in str(v_):
             diff = set((i, j) for i in range(n) for j in range(i + 1, n) if adj[i, j] != 0)
@@ -593,7 +652,7 @@ def run_case(c):
             a2 = np.asarray(v_[1]); diff = set((i, j) for i in range(n) for j in range(i + 1, n) if (adj[i, j] != 0) != (a2[i, j] != 0))
         else:
             return cond
-        return dict(cond, float_cancellation=bool(diff) and diff <= cancel)
+        return dict(cond, float_cancellation=bool(diff) and bool(cancel) and diff <= cancel, exact_tie_nonzero_thr=bool(diff) and bool(ties) and not (bool(cancel) and diff <= cancel) and diff <= ties)
     if st2 != 'ok' or not np.array_equal(canon_adj(v2[1]), base):
         F.append(('group-swap', {'tail': tail, 'swapped_tail': SWAP[tail], 'adj': adj.tolist(), 'adj_swapped': v2[1].tolist() if st2 == 'ok' else str(v2)}, sym_cond(st2, v2)))
     prs = np.random.RandomState(c['seed'] % 65521)
@@ -680,6 +739,9 @@ def run_any(c):
 def expected_line(st, v, k):
     pvals, adj, null = v
     adj = np.asarray(adj); n = len(adj)
+    if not (np.all(np.isfinite(np.asarray(pvals, dtype=float))) and np.all(np.isfinite(np.asarray(adj, dtype=float))) and np.all(np.isfinite(np.asarray(null, dtype=float)))
+            and np.all(np.asarray(adj, dtype=float) == np.round(np.asarray(adj, dtype=float)))):
+        return 'non-finite-or-fractional-output'       # never equal to a model line: a correspondence break, not a crash
     C = len(pvals)
     sizes = [int((adj == c + 1).sum()) // 2 for c in range(C)]
     hits = [int(round(float(p) * k)) for p in pvals]
@@ -732,13 +794,19 @@ def drive(lines):
 
 def main():
     ck = Check(PID)
-    ck.cov['rule'] = ('cases = (x stack, y stack, threshold, tail, paired, k, seed): N = 4..6 nodes, integer-valued symmetric matrices, group sizes 3..7 '
-                      '(unequal unless paired), effect clusters of either sign, constant (zero-variance) edges, k = 20..50, thresholds mostly 1..2.8 plus '
-                      'small / huge / negative ones; chains (Hamiltonian paths of strong effects, n = 6, 7, 10..15, random labels, sometimes cut in two); the case list is shuffled before it is split over the workers; history / object-reuse probes (a subject edited in place between two calls on the same stacks with the same seed, returned arrays edited in place, calls on other sizes / tails in between); stacks passed as float64 / float32 / int64 / int32 / int16 / uint8 / uint16 / uint32 in C or Fortran order; two-sample cases with equal small groups (3+3, 4+4, 5+5, k = 40..80); a family with the same data in exact dyadic units (all data x 2^-30, 2^-40, 2^20; single effect edges at 2^-35 next to unit-scale edges); non-trivial = distinct case in which nbs_bct returned and the oracle finds at least one component; '
-                      'cases with an attained statistic within 1e-6 of the threshold are skipped and counted')
-    ck.assumptions += ['data are integer valued so that exact and float statistics differ by far less than the 1e-6 threshold margin',
-                       'group sizes >= 3 (property quantifier); the t statistic of an edge that is constant over all subjects (0/0) is treated as not exceeding any threshold >= 0',
-                       'every recorded permutation / sign flip is replayed by the oracle and by the Lean model (common.Recorder passed as seed=)']
+    ck.cov['rule'] = ('cases = (x stack, y stack, threshold, tail, paired, k, seed). Scipy-oracle families: N = 4..6 nodes, integer-valued symmetric stacks, group sizes 3..7 '
+                      '(unequal unless paired), effect clusters of either sign, constant edges, k = 20..50, thresholds mostly 1..2.8 plus small / huge / negative ones, passed as '
+                      'float64 / float32 / int64 / int32 / int16 / uint8 / uint16 / uint32 in C or Fortran order; equal small groups (3+3, 4+4, 5+5, k = 40..80); chains / spanning trees of '
+                      'strong effects with n = 6..68 (up to 2278 connections); the same data in exact dyadic units (x 2^-30, 2^-40, 2^-60, 2^20, single cells at 2^-35 / 2^-70). '
+                      'Exact-rational-oracle families (no tolerance, no skip): non-dyadic constant connections (0.1, 0.3, 0.7) two-sample and paired, data offset by ~1e8, thr = 0 with exact ties, '
+                      'more than 64 connections (n = 12..24) with constant connections and unequal groups, thr := an exactly attained dyadic statistic. The case list is shuffled before it is '
+                      'split over the workers; history / object-reuse probes. non-trivial = distinct case in which nbs_bct returned and the oracle finds at least one component; '
+                      'scipy-oracle cases with an attained statistic within 1e-6 of the threshold are skipped, counted, and capped at 2 %')
+    ck.assumptions += ['scipy-oracle families: data are integer valued (times an exact power of two), so exact and float statistics differ by far less than the 1e-6 threshold margin; '
+                       'exact-oracle families are decided in rational arithmetic on the exact values of the floats',
+                       'group sizes >= 2 per group (>= 3 in most families); the statistic of a connection that is constant over all subjects of both groups (0/0) does not exceed any threshold >= 0; '
+                       'with a negative threshold and such a connection no claim is made (status noclaim)',
+                       'every recorded permutation / sign flip is replayed by the oracle; the Lean model replays cases with n <= 16 that contain no float artefact / exact-tie cell']
     # T-gen: nbs_bct source-pinned, its callee get_components interpreted (translate/cores.py)
     ck.cov['cores'] = cores.generate(families=['nbs', 'comp'])
     for p_ in ck.cov['cores']['problems']:
@@ -760,7 +828,7 @@ def main():
             ck.count('probe:' + c['probe'], r['ran'])
             ck.case(nontrivial_key=digest(c) if r['ran'] else None)
             if r['fail'] is not None:
-                ck.violation('nbs_bct', 'result-depends-on-history', {'case': c, 'info': r['fail']}, {'degenerate_two_sample': False, 'degenerate_two_sample_null': False, 'float_cancellation': False})
+                ck.violation('nbs_bct', 'result-depends-on-history', {'case': c, 'info': r['fail']}, {'degenerate_two_sample': False, 'degenerate_two_sample_null': False, 'float_cancellation': False, 'exact_tie_nonzero_thr': False})
             continue
         ck.count('status:' + str(r['status'])); ck.count('n=%d' % c['n']); ck.count('tail:' + c['tail']); ck.count('paired' if c['paired'] else 'two-sample')
         ck.count('flavour:' + c['flavour']); ck.count('dtype:%s/%s' % (c.get('dtype', 'float64'), c.get('order', 'C'))); ck.count('scale:' + c.get('scale', 'unit')); ck.count('symmetry_calls', r['sym']); ck.count('undefined_t_cells(0/0)', r['undefined'])
@@ -768,8 +836,10 @@ def main():
             ck.count('skipped_near_threshold')
         if r.get('cancel_cells'):
             ck.count('cases_with_float_cancellation_cells')
+        if r.get('tie_cells'):
+            ck.count('cases_with_exact_tie_cells(t == thr != 0)')
         if r.get('nocorr'):
-            ck.count('correspondence_skipped(float variance artefact: judged by the exact oracle only)')
+            ck.count('correspondence_skipped(float artefact or exact tie t == thr: judged by the exact oracle only)')
         nontriv = r['status'] == 'ok' and r['ncomp'] > 0
         ck.case(sample={k_: c[k_] for k_ in ('n', 'nx', 'ny', 'thr', 'tail', 'paired', 'k', 'seed', 'flavour', 'scale', 'exp')} | {'components': r['ncomp'], 'x[:,:,0]': np.array(c['x'])[:, :, 0].tolist()} if nontriv else None,
                 nontrivial_key=digest([c['x'], c['y'], c['thr'], c['tail'], c['paired'], c['k'], c['seed'], c.get('exp'), c.get('cexp')]) if nontriv else None)
